@@ -1,6 +1,6 @@
 (** C19 — codec libraries invert each other and are total on hostile input: property theorems only. *)
 From ChibiV Require Import C19.Prims C19.Base64 C19.Base64Proofs C19.Base64Stream C19.Base64StreamProofs
-  C19.IntCodec C19.IntCodecProofs C19.AccTable Gen.C19_AccTable C19.AccTableProofs
+  C19.IntCodec C19.IntCodecProofs C19.AccTable Gen.C19_AccTable C19.AccTableProofs C19.UvTable Gen.C19_UvTable C19.UvTableProofs
   C19.Json C19.JsonProofs C19.JsonValueProofs C19.JsonTextProofs C19.QP C19.QPProofs C19.Uri C19.UriProofs.
 Local Open Scope Z_scope.
 
@@ -137,13 +137,13 @@ Theorem stream_encode_chunk_2048_refuted :
 Proof. exact Base64StreamProofs.stream_encode_chunk_2048_refuted. Qed.
 Print Assumptions stream_encode_chunk_2048_refuted.
 
-(** base64-encode-header: encoded words =?name?B?w?= separated by nl TAB; the payloads concatenated are the encoding *)
+(** base64-encode-header (repaired): encoded words =?name?B?w?= separated by nl TAB (a leading nl TAB when the first line has
+    no room for a quantum); the payloads concatenated are the encoding *)
 Theorem base64_header_words : forall (name bs : list Z) (start_col max_col : Z) (nl : list Z),
   let prefix := [61; 63] ++ name ++ [63; 66; 63] in
-  0 < round4 (round4 (max_col - (2 + Z.of_nat (length prefix))) - start_col) ->
-  exists words,
-    b64_header name bs start_col max_col nl = join (nl ++ [9]) (map (fun w => prefix ++ w ++ [63; 61]) words) /\
-    concat words = b64_encode bs.
+  exists lead words,
+    b64_header name bs start_col max_col nl = lead ++ join (nl ++ [9]) (map (fun w => prefix ++ w ++ [63; 61]) words) /\
+    concat words = b64_encode bs /\ (lead = [] \/ lead = nl ++ [9]).
 Proof. exact Base64StreamProofs.header_words. Qed.
 Print Assumptions base64_header_words.
 
@@ -158,3 +158,9 @@ Theorem accessor_table_in_bounds : forall e, In e acc_table ->
     a_decl_width e = a_width e /\ a_decl_kind e = a_kind e /\ (0 < a_width e)%nat.
 Proof. exact AccTableProofs.accessor_table_in_bounds. Qed.
 Print Assumptions accessor_table_in_bounds.
+
+(** every SRFI 160 accessor binding REGENERATED from lib/srfi/160/uvprims.stub asserts 0 <= i < (uvector-length uv) on the index
+    and vector its C function uses *)
+Theorem uvector_table_in_bounds : forall e, In e uv_table -> forall len i, uasserted e len i = true <-> 0 <= i < len.
+Proof. exact UvTableProofs.uvector_table_in_bounds. Qed.
+Print Assumptions uvector_table_in_bounds.
